@@ -136,6 +136,69 @@ CHECKS.update({
   ref="DESIGN.md §5 C20, docs/C20.md", tech=TECH),
 })
 
+CHECKS.update({
+ "C02": dict(
+  text=("(A) The property's own oracle on the implementation: for generated path expressions of the path-safe grammar x inputs with "
+        "shared structure x update bodies, path(p) must emit exactly the paths whose getpath equals p's outputs, and p=x, p|=f, "
+        "p op= x, del, delpaths, map_values, paths, pick, to_entries/with_entries, tostream must equal their defining reductions "
+        "over path(p) evaluated on the same implementation (overlapping/ancestor/descendant/slice paths in every order; cyclic "
+        "results detected before serialisation; invalid-path errors for computed values). (B) Coq HEAP-level model of the update "
+        "natives (slice headers, pointer-keyed allocator, in-place writes and growth, mark-then-sweep delpaths, three-index "
+        "reslice and owned-only deleteEmpty as in the current code). 8 theorems, closed: abs_update (on a heap with the "
+        "single-owner invariant, for paths of keys/indices with an optional trailing slice and new values containing no allocated "
+        "container: update fails exactly when value-level setpath fails, otherwise denotes setpath of the denoted input for every "
+        "fuel (no cycle), frame for all unrelated values, invariant preserved), invariant_acyclic, value-level get/set and commute "
+        "laws, delpaths descending; the unconditional statement is REFUTED by theorems with the D5/D9 witnesses (each side "
+        "condition is necessary) - recorded as known findings. Correspondence: natives through a hook on random aliased heaps, "
+        "result and post-state of every pre-existing container vs the extracted heap model."),
+  note=TRUST + "Closed under the global context. PARTIAL: slices followed by further components and heap-level delpaths are "
+       "corresponded, not proved; the jq-level statements (path tracking in the VM) are decided by oracle (A) and by the C01 "
+       "semantics stream. Three known findings (D5 cyclic value, D9 shared embedding, D10 string slice path).",
+  ref="DESIGN.md §5 C02, docs/C02.md", tech=TECH),
+ "C05": dict(
+  text=("Coq heap model with EXPLICIT WRITE AND ALLOCATION LOGS of the natives that build or share containers (array construction "
+        "accumulator with capacity aliasing, object construction, +, deep merge, add, sort, sort_by, unique_by, group_by, "
+        "min/max_by, reverse, flatten, transpose, slicing, delpaths/deleteEmpty). 22 theorems, closed: logs are faithful; a call "
+        "whose writes are fresh leaves every older value and cell (incl. hidden capacity slots) unchanged; writes_fresh for each "
+        "modelled native for any append growth policy; slicing neither writes nor allocates; the [q] accumulator lives at a fresh "
+        "address and is not aliased; delpaths writes only owned containers (live theorem selected by a translator flag derived "
+        "from the current deleteEmpty signature). Translator lists every map-iteration and container-write site of packages gojq "
+        "and cli; Coq proves (finite check) it equals the reviewed list with per-site order-independence reasons. Observer: "
+        "histories of one Code (same object, equal copy, interleaved iterators, two processes) with deep snapshots of input, "
+        "variables, emitted values; native stream comparing result, sharing signature and argument heap after the call."),
+  note=TRUST + "Closed under the global context. PARTIAL: C05_full (the discipline over whole VM runs and C02's update natives) is "
+       "stated, not proved; 'never appended to again after completion' is a reviewed code-shape site.",
+  ref="DESIGN.md §5 C05, docs/C05.md", tech=TECH),
+ "C06": dict(
+  text=("What a Gallina model can carry of a statement about real schedules: the ownership discipline. Theorems (closed): "
+        "code_readonly (a run whose writes are fresh leaves the whole pre-existing heap a bit-for-bit prefix of its final heap) and "
+        "runs_commute (generic disjoint-footprint commutation over EVERY schedule of two runs, proved once over an abstract step "
+        "relation with read/write footprints), resting on C05's writes_fresh theorems. C06_full (scheduler, Go memory model, "
+        "sync.Map, deadlock) is stated as outside the model. Implementation-side observer: the harness built with -race runs each "
+        "program from 8 goroutines x R repetitions on one cold shared Code with distinct inputs and with one shared read-only "
+        "input plus a reader goroutine deep-reading input and code constants; any race report, fatal error, stall without "
+        "progress, or per-goroutine output differing from the sequential baseline is a failing input."),
+  note=TRUST + "PARTIAL by nature: the Go scheduler, memory model and race detector verdict are not expressible in the model; the "
+       "theorem is about interleavings of model steps. The race detector is used as a write detector, not as a proof.",
+  ref="DESIGN.md §5 C06 and §7, docs/C06.md", tech="proof of the ownership/commutation discipline in Coq + race-detector observer"),
+ "C09": dict(
+  text=("Translator regenerates from parser.go.y the precedence/associativity table, binary/unary rules, suffix tokens and from "
+        "lexer.go the keyword and operator spellings (fails on any unrecognised directive). Coq: operator sublanguage (AST, "
+        "printer as Query.writeTo prints it, precedence-climbing specification parser driven by the regenerated table) and a "
+        "function-by-function model of lexer.go. 12 theorems, closed: the regenerated table decides all 24x24 operator pairs as "
+        "jq's table; parse ts = Some e iff wf e and toks e = ts (sound, complete, unbounded); print/parse round trip on the parser "
+        "image and uniqueness of reading; token stream and AST invariant under arbitrary whitespace/comment separators; byte-level "
+        "round trip lex+parse(String(e)) = e; lexer totality (terminates within len+1 calls, no out-of-range branch, offsets "
+        "monotone) and ParseError Offset/Token identify the rejected token for every token kind (C08/C17 lexer clauses). "
+        "Implementation oracles on generated programs of the FULL surface grammar, the test.yaml queries, re-spacings and "
+        "mutations: Parse(q.String()) deep-equals q, AST unchanged under re-spacing, Offset in range; model-vs-implementation "
+        "token streams; all operator pairs and triples exhaustively."),
+  note=TRUST + "Closed under the global context. PARTIAL: the goyacc automaton, the ~150 semantic actions and writeTo methods outside "
+       "the operator sublanguage are not modelled (C09_full kept as a Definition); they are covered by the implementation-side "
+       "round-trip oracles and by C08's LR driver theorem.",
+  ref="DESIGN.md §5 C09, docs/C09.md", tech="proof over a grammar table regenerated from source + correspondence"),
+})
+
 ORDER = ["C%02d" % i for i in range(1, 21)]
 NOT_APPLICABLE = {}
 PENDING_REASON = "check under construction in this development (builder not finished); not claimed yet"
